@@ -107,7 +107,10 @@ let () =
           | _ when List.mem name !bare -> ""
           | (PCommitIdx | PAbortBefore), KWriter _ ->
             let rec take n l = if n = 0 then [] else match l with [] -> [] | x :: r -> x :: take (n - 1) r in
-            " view=[" ^ vers_s (take !ntab a.a_entries) ^ "]"
+            let ini v = match v.tv_init with
+              | Some (_, (_ :: _ as p)) -> "!" ^ String.concat "," (List.map (fun x -> string_of_int (int_of_n x)) p)
+              | _ -> "" in
+            " view=[" ^ String.concat ";" (List.map (fun v -> ids_s v.tv_ids ^ ini v) (take !ntab a.a_entries)) ^ "]"
           | PDone, KWriter (_, _, true, _, _) -> " ret=[" ^ vers_s a.a_entries ^ "]"
           | _ -> "" in
         Printf.printf "%s:%s %s%s%s\n" name (pc_s a.a_pc) obs_now extra !suffix
